@@ -70,7 +70,8 @@ inductive Ev
   | handleBegin (res : Sets)              -- L: the loop runs the queued `_handle_select(res)`
   | dispatch (isW : Bool) (fd : Fd)       -- L: the registered callback of `fd` is called
   | consume (n : Nat)                     -- L: `_consume_waker` read `n` bytes
-  | raised                                -- L: the callback just called raised: the rest of this round is skipped
+  | raised                                -- L: the callback just called raised: reported to the loop's exception
+                                          --    handler by `_handle_event`; the round goes on with the next fd
   | post (a : Sets)                       -- L: `_start_select()` at the end of `_handle_select`
   | setClosing | joined | closed          -- L: stages of `close()`
   | ready (isW : Bool) (fd : Fd) | unready (isW : Bool) (fd : Fd)    -- environment
@@ -152,7 +153,7 @@ def step (s : St) : Ev → Option St
   | .raised =>
     if s.pendingWake then none else
     match s.lpc with
-    | .handling _ _ => some { s with lpc := .handling [] [] }     -- `finally: self._start_select()` comes next
+    | .handling _ _ => some s
     | _ => none
   | .post a =>
     if s.pendingWake then none else
